@@ -2,11 +2,11 @@
 """writes MANIFEST.json from the table below (keeps it valid and in one place)"""
 import json, os
 CHECKS = {
- 'C02': dict(technique='taint + interval range checker with the decoder\'s option-length table as bound (R-RANGE), declared-length cap rule (R-STREAM-CAP), parse-before-dispatch and reject-arm typestate (R-PARSE-GATE), library-wide stale-buffer-pointer typestate (R-FIXUP), compare-within-length relation analysis on (pointer,length) pairs (R-CMP-BOUND), inductive capacity-guard rule on persistent element counts (R-COUNT-CAP)',
+ 'C02': dict(technique='taint + interval range checker with the decoder\'s option-length table as bound (R-RANGE), declared-length cap rule (R-STREAM-CAP), parse-before-dispatch and reject-arm typestate (R-PARSE-GATE), library-wide stale-buffer-pointer typestate (R-FIXUP), compare-within-length relation analysis on (pointer,length) pairs (R-CMP-BOUND), inductive capacity-guard rule on persistent element counts (R-COUNT-CAP), computed freeable-field/stale-copy typestate (R-STALE-COPY)',
              text='Decides necessary structural conditions of memory safety on the receive surface: wire-derived indices/copy sizes into fixed-size objects proven in '
                   'range (bounds taken from the decoder\'s own per-option table), CBOR-declared sizes compared with what is left, wire-derived shift counts bounded, '
                   'declared lengths capped with the session closed on excess, rejection of every malformed-input condition before dispatch, no use of a PDU buffer '
-                  'pointer after a possible reallocation, every memcmp/strncmp over a length-delimited string bounded by that string\'s own length, and a persistent count that bounds a fixed array only incremented behind one common capacity guard. Absence of all memory errors / UB for all inputs and histories, termination and continued service are '
+                  'pointer after a possible reallocation, every memcmp/strncmp over a length-delimited string bounded by that string\'s own length, and a persistent count that bounds a fixed array only incremented behind one common capacity guard, CBOR reader reads covered by real remaining-length tests, no use of a local copy of an owned pointer field after a call that may free it. Absence of all memory errors / UB for all inputs and histories, termination and continued service are '
                   'not decided; persistent reader-state indices are declined.',
              design='6 C02'),
  'C14': dict(technique='case-label dataflow of option numbers into the outer/inner PDU roles against the RFC 8613 Figure 5 table, tested-result gating of the decrypt call (R-OSC-SPLIT), role typing of byte-string flows between the COSE object and the request/response association (R-OSC-ROLE)',
@@ -30,18 +30,18 @@ CHECKS = {
              design='6 C09'),
  'C10': dict(technique='linear ownership of the response object (R-OWN-PDU) and emission-count typestate over coap_dispatch/handle_request (R-REPLY-ONCE), flag/class agreement of the suppression decision table (R-SUPPRESS-TAB)',
              text='Decides the clause "at most one direct reply per request datagram": every reply object is created once and sent or deleted exactly once on '
-                  'every path, and no path passes two emission points except Empty ACK followed by the response. Also decides the internal agreement of the suppression table in no_response(): each per-resource multicast flag is paired with the response class its public name states on the arm its polarity demands, the No-Response bitmap is indexed with class-1. The reply-code table, handler selection '
+                  'every path, and no path passes two emission points except Empty ACK followed by the response. Also decides the internal agreement of the suppression table in no_response(): each per-resource multicast flag is paired with the response class its public name states on the arm its polarity demands, the No-Response bitmap is indexed with class-1; a queued Non-confirmable reply is flagged for a single transmission. The reply-code table, handler selection '
                   'and when suppression applies are not decided.',
              design='6 C10'),
  'C06': dict(technique='send-queue node typestate {owned, in send queue, in delay queue, deleted} via the linear-ownership engine (R-OWN-NODE), gate/count/NACK-once typestate in coap_retransmit (R-RETRANS)',
              text='Decides on every path that a queue node has one owner and one disposal (never leaked, never deleted while linked in a delay queue, never used '
-                  'after deletion), that retransmission is gated by retransmit_cnt < max_retransmit with exactly one increment, and that a given-up Confirmable is '
-                  'NACKed exactly once. Necessary for "ends in one outcome and is never sent again"; timing, byte-identical retransmission and behaviour '
+                  'after deletion), that retransmission is gated by retransmit_cnt < max_retransmit with exactly one increment, that a given-up Confirmable is '
+                  'NACKed exactly once, and that only Confirmables or flagged single-shot nodes enter the retransmit queue. Necessary for "ends in one outcome and is never sent again"; timing, byte-identical retransmission and behaviour '
                   'under loss patterns are not decided.',
              design='6 C06'),
  'C08': dict(technique='who-may-write census plus path-sensitive gate/in-hand typestate on the in-flight counter (R-CNT-CON)',
              text='Decides the accounting discipline of con_active on every path of every writer: writer kinds, decrement only with a send-queue node in hand, '
-                  'increment only below the NSTART comparison, transmitters count. These are necessary for the in-flight bound; the bound itself under all '
+                  'increment only below the NSTART comparison, transmitters count, a dequeued-and-deleted Confirmable was un-counted, and a node is retired only for its own session and message id. One genuine defect is a known finding. These are necessary for the in-flight bound; the bound itself under all '
                   'ACK/RST orders and the FIFO order of held messages are not decided.',
              design='6 C08'),
  'C15': dict(technique='who-may-write rule on the anti-replay fields (R-REPLAY-OWN), snapshot/restore and rollback-before-exit typestate (R-REPLAY-RB), must-pass-through validation (R-REPLAY-MUST), interval check of shift counts (R-RANGE), persist-before-use difference analysis on the sender sequence number and its watermark (R-SSN-ORDER)',
@@ -60,19 +60,19 @@ CHECKS = {
  'C05': dict(technique='transfer/advance pairing typestate on progress counters (R-STREAM-ADV), declared-length cap and close must-pass-through rule (R-STREAM-CAP)',
              text='Decides for the TCP and WebSocket stream readers that every n bytes stored at buffer+counter are accounted by advancing that counter by the same '
                   'n (or a reset) on every path, that peer-declared lengths are compared with a maximum before they size an allocation/copy/read with the '
-                  'exceeding arm closing the session, and that a full handshake line buffer is rejected. Necessary for segmentation independence and for '
+                  'exceeding arm closing the session, that a parse cursor advanced into the receive buffer is re-derived after every refill, and that a full handshake line buffer is rejected. Necessary for segmentation independence and for '
                   '"over-long closes the session"; equality of delivered message sequences over all segmentations is not decided.',
              design='6 C05'),
  'C01': dict(technique='sibling/table agreement by constant-partition extraction and interval-guided arm-offset check (R-CODEC-TAB), narrowing-cast interval check (R-WIDTH), stale-pointer and size/payload pairing typestate (R-FIXUP)',
              text='Decides, on the current source, that every encoder and decoder of option delta/length, TCP length and token length uses the RFC 7252/8323/8974 '
                   'thresholds, nibbles and offsets (and therefore each other\'s), that the decoder\'s option-number bound as folded in its unit equals the '
-                  'builder\'s, that no stored length passes a truncating explicit cast, and that the builder keeps buffer pointers and size/payload in step. '
+                  'builder\'s, that every buffer-measuring expression uses the on-wire token size, that no stored length passes a truncating explicit cast, and that the builder keeps buffer pointers and size/payload in step. '
                   'These are necessary conditions of the round trip; equality of parse(serialise(m)) with m is not decided.',
              design='6 C01'),
  'C03': dict(technique='interval analysis with wrap-guard/range-guard discharge on the decoder\'s option-number arithmetic (R-WIDTH), reject-arm must-return-0 typestate over a frozen condition table and parse-before-dispatch gating (R-PARSE-GATE), table agreement (R-CODEC-TAB)',
              text='Decides that the decoder cannot silently wrap an option number, that each malformed-input condition of the frozen table (reserved nibbles, '
                   'TKL 15, token longer than message, payload marker without payload, non-empty Empty, option-number overflow, runt datagram, truncated option) is '
-                  'still tested and only leads to a zero return, and that the protocol layer is entered only after successful parser calls. Agreement with an '
+                  'still tested and only leads to a zero return, that the parser's pure output fields are assigned on every accepting path, and that the protocol layer is entered only after successful parser calls. Agreement with an '
                   'independent decoder on all inputs and the per-option length table are not decided.',
              design='6 C03'),
  'C04': dict(technique='stale-pointer typestate across may-reallocate calls (computed closure) and used_size/data/memmove pairing (R-FIXUP), narrowing-cast interval check (R-WIDTH)',
@@ -87,10 +87,10 @@ CHECKS = {
                   'handed on on every path; the context destructor drains every collection of reference holders before the endpoint destructor that only frees unreferenced sessions. Necessary for "live while referenced; everything released; one NEW/DEL event". Peer-to-session bijection and '
                   'reclamation timing are not decided.',
              design='6 C12'),
- 'C18': dict(technique='NULL-check typestate for computed may-fail constructors (R-ALLOC-NULL) + linear ownership of PDUs with computed consumer summaries (R-OWN-PDU), alias-window typestate after shallow struct copies against computed destructor frees (R-SHALLOW-ALIAS)',
+ 'C18': dict(technique='NULL-check typestate for computed may-fail constructors (R-ALLOC-NULL) + linear ownership of PDUs with computed consumer summaries (R-OWN-PDU), alias-window typestate after shallow struct copies against computed destructor frees (R-SHALLOW-ALIAS), fresh-holder field ownership (R-HOLDER-LEAK)',
              text='Library-wide, every path: the result of every (computed) may-fail constructor is NULL-tested before any dereference or hand-over to a '
                   'dereferencing callee; every PDU created or received through a consuming parameter is released/handed on/stored exactly once, never used '
-                  'after release; the frozen consumer contracts (coap_send*, coap_session_delay_pdu, coap_send_q_block*) are checked against their own bodies; after a shallow struct copy no destructor that frees a still-aliased owned field runs before that field got its own buffer. '
+                  'after release; the frozen consumer contracts (coap_send*, coap_session_delay_pdu, coap_send_q_block*) are checked against their own bodies; after a shallow struct copy no destructor that frees a still-aliased owned field runs before that field got its own buffer; a freshly allocated record is not freed raw while its fields hold objects created on that path. '
                   'Necessary for surviving allocation failure without crash or leak; "the next operation succeeds" is not decided.',
              design='6 C18'),
  'C13': dict(technique='lock typestate {U,L,F} + in_callback counter over all paths and calling contexts (ESP-style property simulation), capability/mechanism configuration rule, owner typestate on the lock object\'s bookkeeping fields inside the lock primitives (R-LOCK-OWNER)',
